@@ -31,6 +31,8 @@ pub struct Props {
     pub c06: bool,
     pub c09: bool,
     pub c13: bool,
+    pub c10: bool,
+    pub c17: bool,
 }
 
 impl Props {
@@ -42,6 +44,8 @@ impl Props {
             "C06" => p.c06 = true,
             "C09" => p.c09 = true,
             "C13" => p.c13 = true,
+            "C10" => p.c10 = true,
+            "C17" => p.c17 = true,
             _ => {}
         }
         p
@@ -105,6 +109,8 @@ pub struct Tracked<T: Flt> {
     pub run: Runner<T>,
     pub trk: Tracker,
     pub props: Props,
+    /// state and getters right after construction (C10)
+    pub initial: Option<(State, Getters)>,
 }
 
 /// Is the relative ratio x inside the documented closed interval [1/m, m]?
@@ -116,8 +122,18 @@ impl<T: Flt> Tracked<T> {
     pub fn new(cfg: &Cfg, sig: Signal, props: Props) -> Result<Tracked<T>, String> {
         let mut run = Runner::<T>::new(cfg, sig)?;
         let trk = Tracker::new(cfg, sig);
-        run.keep_out = props.c06 && trk.instants;
-        Ok(Tracked { run, trk, props })
+        run.keep_out = (props.c06 && trk.instants) || props.c17;
+        let initial = if props.c10 {
+            Some((run.state(), run.r.getters()))
+        } else {
+            None
+        };
+        Ok(Tracked {
+            run,
+            trk,
+            props,
+            initial,
+        })
     }
 
     pub fn replay(&mut self, history: &[Op]) -> bool {
@@ -149,6 +165,11 @@ impl<T: Flt> Tracked<T> {
             }
             if self.props.c09 {
                 mon_c09(&cfg, &obs, &mut viols);
+            }
+            if self.props.c10 && op == Op::Z {
+                if let Some((s0, g0)) = &self.initial {
+                    mon_c10(&obs, s0, g0, &self.run.state(), &mut viols);
+                }
             }
             if self.props.c13 {
                 if let (Op::Bad(b), Some(sb)) = (op, st_before.as_ref()) {
@@ -261,7 +282,15 @@ impl<T: Flt> Tracked<T> {
             }
             self.trk.seen_valid = true;
             let tau = yj - INDEX_BASE;
-            if tau.abs() > 1e20 {
+            if tau.abs() > 1e9 && tau.abs() < 1e21 && obs.probe.window_above_valid > 0 {
+                // A poisoned point entered with weight |tau| / POISON < 1e-9: the read position
+                // reached an integer only up to floating-point rounding of the accumulated steps.
+                // The stale cell contributes below rounding level: not a violation, but the
+                // instant is unusable.
+                self.trk.last_tau = None;
+                continue;
+            }
+            if tau.abs() >= 1e21 {
                 if check {
                     viols.push(v(
                         "C06",
@@ -640,4 +669,39 @@ pub fn mon_c13(
         }
     }
     let _ = (scalar, scalar_f64);
+}
+
+/// C10: after reset() the resampler equals a freshly constructed one (state and getters).
+pub fn mon_c10(obs: &Obs, s0: &State, g0: &Getters, s1: &State, viols: &mut Vec<Viol>) {
+    if !matches!(obs.res, Res::Unit) {
+        viols.push(v("C10", "reset-failed", format!("reset -> {}", obs.res.text())));
+        return;
+    }
+    if obs.after != *g0 {
+        viols.push(v(
+            "C10",
+            "reset-getters-differ",
+            format!("after reset {:?}, freshly constructed {:?}", obs.after, g0),
+        ));
+    }
+    if s0.scalars != s1.scalars {
+        let diff: Vec<String> = s0
+            .scalars
+            .iter()
+            .zip(s1.scalars.iter())
+            .filter(|(a, b)| a != b)
+            .map(|(a, b)| format!("{}: fresh {:#x} reset {:#x}", a.0, a.1, b.1))
+            .collect();
+        viols.push(v("C10", "reset-control-differs", diff.join(", ")));
+    }
+    if s0.data_hash != s1.data_hash || s0.data_shape != s1.data_shape {
+        viols.push(v(
+            "C10",
+            "reset-data-differs",
+            "sample storage after reset differs from a freshly constructed resampler".to_string(),
+        ));
+    }
+    if s0.mask != s1.mask {
+        viols.push(v("C10", "reset-mask-differs", format!("{:?} vs {:?}", s0.mask, s1.mask)));
+    }
 }
